@@ -25,7 +25,7 @@ ASSUMPTIONS = [
     "the group-less path is the trusted side of the differential (decided by C01)",
     "labels of different groups are disjoint (overlapping group definitions are outside the property)",
 ]
-BUDGET = {"quick": 150, "thorough": 2000}
+BUDGET = {"quick": 320, "thorough": 2000}
 BOUNDS = {"sides": "1-D<=16, 2-D<=8, 3-D<=5", "labels": "<= 201"}
 
 
@@ -42,13 +42,18 @@ def _map_to_labels(a, labels):
 
 @st.composite
 def case_strategy(draw):
-    # a fifth of the cases with labels whose low byte is zero in the pool (256, 512: they vanish when cast to 8 bit)
-    groups = draw(gen.group_defs(labels=(1, 2, 3, 256, 512, 5, 6, 9, 768, 11, 17, 19, 33, 200))) if draw(st.integers(0, 4)) == 0 else draw(gen.group_defs())
+    # a third of the cases with labels whose low byte is zero in the pool (256, 512: they vanish when cast to 8 bit)
+    groups = draw(gen.group_defs(labels=(1, 2, 3, 256, 512, 5, 6, 9, 768, 11, 17, 19, 33, 200))) if draw(st.integers(0, 2)) == 0 else draw(gen.group_defs())
     defined = sorted(l for g in groups for l in g["labels"])
     it = draw(st.sampled_from(["SEMANTIC", "UNMATCHED_INSTANCE", "MATCHED_INSTANCE"]))
     pred, ref = draw(gen.pair(k=len(defined) + 1, derived_weight=3))
     lp = draw(st.permutations(defined))
     pred, ref = _map_to_labels(pred, list(lp)), _map_to_labels(ref, list(lp) if it == "MATCHED_INSTANCE" or draw(st.booleans()) else list(draw(st.permutations(defined))))
+    if draw(st.integers(0, 2)) == 0:
+        # one group's structure is missing altogether on one side
+        g = groups[draw(st.integers(0, len(groups) - 1))]
+        side = pred if draw(st.booleans()) else ref
+        side[np.isin(side, g["labels"])] = 0
     other = draw(gen.free_map(list(ref.shape), k=4, density=2))
     other2 = draw(gen.free_map(list(ref.shape), k=4, density=2))
     mm = draw(st.sampled_from(["IOU", "DSC", "ASSD"]))
